@@ -281,6 +281,9 @@ def check(run):
     p12.forwarder_rules(run, (T,))
 
     accept_queue_drained_rule(run)
+    run.clause('an accept is outstanding exactly while a handler slot is set: the hand-out in check_accept_queue is decided by the handler slots (shared with C06/C16)')
+    import p06 as _p06
+    _p06.accept_queue_rules(run)
     run.clause('re-opening an acceptor resets it as an acceptor (listen state, accept queue), not only as a socket')
     acceptor_reopen_rule(run)
     run.clause('a SYN-ACK completes only the connect it answers: the completion of m_connect_handler in incoming_packet is guarded by the packet\'s channel being the socket\'s current channel (a SYN-ACK for a cancelled connect must not complete a later connect to another acceptor)')
